@@ -61,6 +61,8 @@ def gen_case(rng, tier):
         kind = rng.choice(("collection", "collection", "collection", "single", "permuted", "union", "zero-added",
                            "preconverted", "fit_transform", "empty-in-collection", "single-in-list"))
         op = {"op": kind, "skew": True}
+        if rng.random() < 0.15:
+            op["flag"] = rng.choice(("np.bool_", "int"))          # the skew flag as a NumPy bool / as 1 or 0
         if kind in ("collection", "empty-in-collection"):
             k = rng.randint(1, nd)
             op["ds"] = [rng.randrange(nd) for _ in range(k)]
@@ -255,6 +257,11 @@ def _run(case, sched, world, cfg, dg_json, im=None, ops=None, opi0=0):
         if nj is not None and (not isinstance(nj, int) or nj == 0):
             raise InvalidCase("n_jobs")
         site = "transform(%s,n_jobs=%s)" % (kind, "None" if nj is None else ("1" if nj == 1 else ">=2"))
+        fl = op.get("flag")
+        if fl not in (None, "np.bool_", "int"):
+            raise InvalidCase("flag")
+        T_ = True if fl is None else (np.bool_(True) if fl == "np.bool_" else 1)
+        F_ = False if fl is None else (np.bool_(False) if fl == "np.bool_" else 0)
         if kind in ("collection", "empty-in-collection", "single-in-list"):
             ids = op.get("ds") if kind != "single-in-list" else [op.get("d")]
             if not ids or any(not isinstance(i, int) or not 0 <= i < len(D) for i in ids):
@@ -284,7 +291,7 @@ def _run(case, sched, world, cfg, dg_json, im=None, ops=None, opi0=0):
                 dt = np.float32 if form == "f32" else np.float16
                 coll = [c_.astype(dt) for c_ in coll]
                 if all(np.isfinite(c_).all() and (len(c_) == 0 or np.all(c_[:, 1] >= c_[:, 0])) for c_ in coll):
-                    want = [np.asarray(call(site, im.transform, c_, skew=True), float) if len(c_) else np.zeros(resx)
+                    want = [np.asarray(call(site, im.transform, c_, skew=T_), float) if len(c_) else np.zeros(resx)
                             for c_ in coll]
                 else:
                     coll = [c_.astype(np.float64) for c_ in [D[i] for i in ids]]
@@ -294,7 +301,7 @@ def _run(case, sched, world, cfg, dg_json, im=None, ops=None, opi0=0):
                 coll = tuple(coll)
             if use2:
                 site = site + "[second-imager-same-resolution]"
-            out = call(site, imx.transform, coll, skew=True, n_jobs=nj)
+            out = call(site, imx.transform, coll, skew=T_, n_jobs=nj)
             if nj is not None and nj != 1 and len(coll) > 1:
                 par_calls += 1
             if not isinstance(out, (list, tuple)) and not (isinstance(out, np.ndarray) and out.ndim == 3):
@@ -323,7 +330,7 @@ def _run(case, sched, world, cfg, dg_json, im=None, ops=None, opi0=0):
             i = op.get("d")
             if not isinstance(i, int) or not 0 <= i < len(D):
                 raise InvalidCase("d")
-            out = call(site, im.transform, D[i], skew=True, n_jobs=nj)
+            out = call(site, im.transform, D[i], skew=T_, n_jobs=nj)
             if not _close(out, base[i], totw):
                 raise Violation("repeatable", site, "differs", "same diagram transformed again gives a different image", opi)
         elif kind == "permuted":
@@ -333,7 +340,7 @@ def _run(case, sched, world, cfg, dg_json, im=None, ops=None, opi0=0):
             r = random.Random(op.get("seed", 0))
             idx = list(range(len(D[i])))
             r.shuffle(idx)
-            out = call(site, im.transform, D[i][idx] if len(idx) else D[i], skew=True, n_jobs=nj)
+            out = call(site, im.transform, D[i][idx] if len(idx) else D[i], skew=T_, n_jobs=nj)
             if not _close(out, base[i], totw, rel=1e-9):
                 raise Violation("order-of-points-irrelevant", site, "differs", "permuted diagram gives a different image", opi)
         elif kind == "union":
@@ -345,9 +352,9 @@ def _run(case, sched, world, cfg, dg_json, im=None, ops=None, opi0=0):
             if len(U) == 0:
                 continue
             if nj is None:
-                out = call(site, im.transform, U, skew=True)
+                out = call(site, im.transform, U, skew=T_)
             else:
-                out = call(site, im.transform, [U, D[ids[0]]], skew=True, n_jobs=nj)[0]
+                out = call(site, im.transform, [U, D[ids[0]]], skew=T_, n_jobs=nj)[0]
                 par_calls += 1
             if not _close(out, want, totw * len(ids), rel=1e-9):
                 raise Violation("image-of-union==sum-of-images", site, "differs",
@@ -361,7 +368,7 @@ def _run(case, sched, world, cfg, dg_json, im=None, ops=None, opi0=0):
             wz = ic.weights_at(cfg, np.column_stack([cand[:, 0], cand[:, 1] - cand[:, 0]]))
             if not np.all(wz == 0):
                 continue
-            out = call(site, im.transform, np.vstack([D[i], cand]), skew=True, n_jobs=nj)
+            out = call(site, im.transform, np.vstack([D[i], cand]), skew=T_, n_jobs=nj)
             if not _close(out, base[i], totw, rel=1e-9):
                 raise Violation("zero-weight-points-contribute-nothing", site, "differs", "adding zero-weight points changed the image", opi)
         elif kind == "preconverted":
@@ -370,12 +377,12 @@ def _run(case, sched, world, cfg, dg_json, im=None, ops=None, opi0=0):
                 raise InvalidCase("d")
             bp = BP[i].copy()
             keep = bp.copy()
-            out = call(site, im.transform, bp, skew=False, n_jobs=nj)
+            out = call(site, im.transform, bp, skew=F_, n_jobs=nj)
             if bp.tobytes() != keep.tobytes():
                 raise Violation("inputs-untouched", site, "diagram-modified", "pre-converted diagram modified", opi)
             if not _close(out, base[i], totw, rel=1e-9):
                 raise Violation("skew-consistent", site, "differs",
-                                "birth-persistence input with skew=False differs from birth-death input with skew=True", opi)
+                                "birth-persistence input with skew=F_ differs from birth-death input with skew=T_", opi)
         elif kind == "fit_transform":
             ids = op.get("ds")
             if not ids or any(not isinstance(i, int) or not 0 <= i < len(D) for i in ids):
@@ -389,10 +396,10 @@ def _run(case, sched, world, cfg, dg_json, im=None, ops=None, opi0=0):
             if max(np.ptp(allbp[:, 0]), np.ptp(allbp[:, 1])) / float(cfg["pixel_size"]) > 60:
                 continue        # far-outside points would make the fitted image enormous
             twin = ic.make_imager(cfg)
-            out = call("fit_transform", twin.fit_transform, coll, skew=True)
+            out = call("fit_transform", twin.fit_transform, coll, skew=T_)
             twin2 = ic.make_imager(cfg)
-            call("fit", twin2.fit, coll, skew=True)
-            want = call("transform(after-fit)", twin2.transform, coll, skew=True)
+            call("fit", twin2.fit, coll, skew=T_)
+            want = call("transform(after-fit)", twin2.transform, coll, skew=T_)
             for k, (o, w_) in enumerate(zip(out, want)):
                 if not _close(o, w_, totw):
                     raise Violation("call-style-independent", "fit_transform", "value",
